@@ -66,6 +66,7 @@ _CONC = {
     "C05": "Engine A adds: two threads, each with its own active-span stack (root, Scope, child) through one real TracerProvider in every interleaving with <= 3 (thorough 4) preemptions: each child has its own thread's span as parent and trace, GetCurrentSpan is the thread's own, span ids are distinct and non-zero.",
     "C06": "Engine A adds: recorder threads racing collector threads on the real MeterProvider / SyncMetricStorage / TemporalMetricStorage with delta and cumulative pull readers, every interleaving with <= 2 (thorough 3) preemptions; values are distinct powers of two so every point identifies the measurements it contains: a delta reader's intervals must partition the measurements, a cumulative reader's collections must be growing supersets ending with everything.",
     "C10": "Engine A adds: two threads running attach/detach programs (all 25 pairs of 5 programs incl. out-of-order and repeated contexts) in every interleaving with <= 3 (thorough 4) preemptions: each thread observes only its own runtime-context stack.",
+    "C17": "Engine A adds: a collection in flight on one thread while another thread removes a callback or destroys the instrument (real ObservableRegistry / Meter / MeterContext), every interleaving with <= 2 (thorough 3) preemptions plus scheduling points after every unlock: no callback invocation may start after RemoveCallback / the instrument's destruction has returned, and the callback that stays registered is invoked exactly once per collection.",
     "C13": "Engine A adds: two threads with different (optionally nested) active spans emitting through one real LoggerProvider in every interleaving with <= 3 (thorough 4) preemptions: every exported record carries its own thread's trace/span ids.",
 }
 for _p, _t in _CONC.items():
